@@ -194,6 +194,12 @@ def method_cfg(world, cls_qname, name, inline_also=(), lift_values=False):
     from .inline import acopy
     fq = acopy(r[2])
     fn = fq if expand_quantifiers(fq) else r[2]
+    if any(isinstance(n, ast.Call) and isinstance(n.func, ast.Name) and
+           n.func.id == "enumerate" for n in ast.walk(fn)):
+        from .normal import enumerate_index_to_zip
+        fz = acopy(fn)
+        if enumerate_index_to_zip(fz):
+            fn = fz
     fn = role_names(fn)
     fn = normalise(fn, world, LOC, world.cls(cls_qname),
                    primitives=tuple(p for p in PRIMITIVES
